@@ -348,6 +348,11 @@ func (im *Impl) Exec(line string) (out string) {
 	case "drop":
 		replica.VerifDropHoles()
 		return "ok"
+	case "setrb":
+		if im.rb != nil {
+			return "refused"
+		}
+		return res(im.S.SetRebuilding(w[1] == "1"))
 	case "setrev":
 		return res(im.S.SetRevisionCounter(int64(atoi(w[1]))))
 	case "cleaner":
